@@ -15,7 +15,7 @@ from lib.common import log
 SPEC = common.SPEC / "pool"
 REPO_SRC = ["src/threading/Thread.cpp", "src/threading/Runnable.cpp"]
 FLAGS = ["-O0", "-fno-inline", "-g", "-UNDEBUG", "-fno-lifetime-dse"]
-P_EVENTS = {"Begin", "StartCall", "StartRet", "Invoke", "InvokeEnd", "InvokeTrap", "RunBegin", "RunEnd", "Destroy", "FinSeen", "JoinRet",
+P_EVENTS = {"Payload", "Begin", "StartCall", "StartRet", "Invoke", "InvokeEnd", "InvokeTrap", "RunBegin", "RunEnd", "Destroy", "FinSeen", "JoinRet",
             "Done", "Deadlock", "Crash", "TooLong"}
 ASSUMPTIONS = [
     "A2: vsched's model of pthread_create/join is faithful; the new thread's first instruction is a scheduling point",
@@ -30,6 +30,13 @@ PC_T = {"created": "START", "in": "MARK", "exited": "FIN"}
 
 def harness():
     return common.build("thread_h", ["pool/thread_harness.cpp", "vsched/vsched.cpp"], FLAGS, REPO_SRC)
+
+
+def race_harness():
+    """Instrumented build (see components/races.py): used for the 'poll' scenario, where the starter relies on
+    isFinished() alone; an unordered access to the callable's payload means isFinished() does not publish completion."""
+    return common.build("thread_race", ["pool/thread_harness.cpp"], ["-O0", "-g", "-UNDEBUG", "-fno-lifetime-dse", "-fno-pie", "-no-pie"], REPO_SRC,
+                        plain_sources=["vsched/vsched.cpp", "vsched/racedet.cpp"], plain_flags=("-O1", "-g", "-fno-pie"), compile_only_flags=("-fsanitize=thread",))
 
 
 def all_paths(g):
@@ -71,6 +78,19 @@ def check(pid, tier, seed):
     for i in range(n_y):
         lines += ["X y%d mode=random kind=%d args=%d seed=%d" % (i, i % 4, (i // 4) % 3, rnd.randrange(1, 2 ** 31)), "E"]
     res = common.run_harness(exe, "\n".join(lines) + "\n")
+    # 'poll' scenario on the access-instrumented build
+    plines = []
+    n_poll = {"quick": 60, "thorough": 1000}[tier]
+    for i in range(n_poll):
+        plines += ["X poll%d mode=random kind=4 args=0 seed=%d" % (i, rnd.randrange(1, 2 ** 31)), "E"]
+    pres = common.run_harness(race_harness(), "\n".join(plines) + "\n")
+    for xid, recs in pres.items():
+        res[xid] = recs
+        addr = next((r["addr"] for r in recs if r.get("e") == "PayloadAddr"), None)
+        for r in recs:
+            if r.get("e") == "Race" and addr is not None and abs(int(r["addr"], 16) - int(addr, 16)) < 4:
+                verdict.violation("thread[poll] payload race after isFinished()", "the starter saw isFinished() == true but its read of the callable's result is not "
+                                  "ordered after the callable's write (no happens-before edge through the finished flag)", {"component": "thread", "id": xid, "race": r})
     drifts = []
     execs = {}
     for xid, recs in res.items():
